@@ -11,6 +11,8 @@ CONSTANTS
   MaxErrors = 2
   PoissonIncs <- Inc0125
   ExtAt <- Ext47
+  WaitExtAt <- Ext36
+  WaitOffsets <- Wait1to6
   TimerBeforeRampUp = TRUE
   LatencyEndsAtResponse = TRUE
 INVARIANT TypeOK
